@@ -362,6 +362,12 @@ inline JV genTree(sim::Prng& r, int depth, int& budget, bool utf8Only, bool iden
 		v.t = JV::NUM;
 		v.isInt = true;
 		v.i = r.below(6) == 0 ? (r.below(2) ? -2147483647LL - 1 : 2147483647LL) : (long long)r.range(-100000, 100000);
+		if (r.below(8) == 0)
+		{
+			// integer literals around the 32-bit, 53-bit and decimal-digit boundaries (read as numbers, exact in a double)
+			static const long long B[] = {2147483648LL, -2147483649LL, 4294967295LL, 4294967296LL, 999999999LL, 1000000000LL, 9999999999LL, 9007199254740992LL, -9007199254740992LL, 2147483646LL, -2147483647LL};
+			v.i = B[r.below(sizeof B / sizeof B[0])];
+		}
 		v.d = (double)v.i;
 		break;
 	case 3:
